@@ -100,7 +100,45 @@ def gen_op(rng, ipc, in_script, big_ok, bias=None):
     return None   # caller inserts run / env
 
 
+def gen_backlog_case(rng):
+    """queue depths around the 32-request starvation cap of uv__write: one request held back by
+    EAGAIN (or a partial write), N small requests queued behind it, then the OS accepts (almost)
+    everything so that many requests complete within ONE uv__write pass"""
+    kind = rng.choice(["pipe", "tcp", "ipc", "fifo", "tcpconn"])
+    n = rng.choice([30, 31, 32, 33, 34, 35, 63, 64, 65, 66, 67, 70, 100])
+    lines = [f"open {kind}"]
+    first = rng.choice(["e11", "e105", "k1", "e4 e11"])
+    if kind != "tcpconn":
+        lines.append("env " + first)
+    for k in sorted(set(rng.below(n + 2) for _ in range(rng.choice([0, 0, 1, 3])))):
+        ops = [o for o in (gen_op(rng, kind == "ipc", True, False) for _ in range(rng.range(1, 2))) if o]
+        if ops:
+            lines.append(f"script {k} " + " ".join(ops))
+    lines.append("w " + rng.choice(["3", "2,2", "5,0,1"]))
+    for i in range(n):
+        lines.append("w " + rng.choice(["1", "1", "2", "1,1", "0", "3,0"]))
+        if rng.chance(1, 40):
+            lines.append(rng.choice(["t 1", "s", "run"]))
+    tail = rng.below(6)
+    if tail == 0:      # a partial write / EAGAIN / hard error somewhere inside the big pass
+        pos = rng.below(n)
+        lines.append("env " + " ".join(["k1000000"] * pos + [rng.choice(["k1", "e11", "e32", "e4", "k0"])]))
+    elif tail == 1:
+        lines.append("s")
+    elif tail == 2:
+        lines += ["c"]
+    if tail != 0 and rng.chance(1, 2):
+        lines.append("envclear")
+    lines += ["run"] * rng.choice([1, 2, 3, 5])
+    if rng.chance(1, 3):
+        lines += ["c", "run"]
+    lines += ["envclear", "run", "run", "run", "end"]
+    return lines
+
+
 def gen_case(rng, nsteps, bias=None):
+    if bias is None and rng.chance(1, 10):
+        return gen_backlog_case(rng)
     kind = rng.choice(KINDS)
     ipc = kind == "ipc"
     lines = [f"open {kind}"]
@@ -152,7 +190,7 @@ def monitor(case, out):
     subs = []           # submissions in call order: dict(id, kind 'w'|'t', total, ret, cbstatus, cbtime, t_accept)
     byid = {}
     events = []         # (time, what, payload) for the post-hoc wqs check
-    st = dict(shut_while_connecting=False, connecting=kind in ("tcpconn", "tcpfail"), shutdown_ok_at=None, shutsys_ok=False, closed_api=False,
+    st = dict(hard_seen=set(), shut_while_connecting=False, connecting=kind in ("tcpconn", "tcpfail"), shutdown_ok_at=None, shutsys_ok=False, closed_api=False,
               ncb=0, nextid=0, t=0, closecb=False, lastcb=-1, shutcb=False)
     sysacc = []         # (time, n, in_try) accepted bytes
     obs_points = []     # (time, wqs)
@@ -191,6 +229,8 @@ def monitor(case, out):
                     raise Bad("try-write-ret", f"uv_try_write returned {rc} > {total}")
             for sl in sys_lines:
                 w = sl.split(); res = int(w[4])
+                if res < 0 and res not in (-11, -105, -4):
+                    st["hard_seen"].add(res)
                 if st["shutsys_ok"] and res > 0:
                     raise Bad("bytes-after-shutdown", f"{sl} after a successful shutdown(2)")
                 if res > 0:
@@ -240,6 +280,10 @@ def monitor(case, out):
             for e in subs:
                 if e["kind"] == "w" and e["id"] < rid and e["cbstatus"] is None:
                     raise Bad("cb-order", f"callback of request {rid} before earlier request {e['id']}")
+            if status > 0:
+                raise Bad("cb-status-not-an-error", f"callback of request {rid} got status {status}: neither 0 nor a UV_E* code")
+            if status < 0 and status != -125 and status not in st["hard_seen"] and not st.get("conn_failed"):
+                raise Bad("cb-status-unexplained", f"callback of request {rid} got status {status} but no write syscall failed with that errno")
             s["cbstatus"] = status; s["cbtime"] = tick()
         elif w[0] == "shutcb":
             if st["shutcb"]:
@@ -302,6 +346,8 @@ def monitor(case, out):
                         # post-hoc check below: nothing queued may still be unsent (bytes-after-shutdown)
                 elif l.startswith("sys "):
                     res = int(l.split()[4])
+                    if res < 0 and res not in (-11, -105, -4):
+                        st["hard_seen"].add(res)
                     if st["closed_api"]:
                         raise Bad("syscall-after-close", l)
                     if st["shutsys_ok"] and res > 0:
@@ -465,6 +511,13 @@ def run_sim(ctx, exe, cases, label):
                     key += ":" + l.split()[2]
                 h[key] = h.get(key, 0) + 1
             h["kind:" + c[0].split()[1]] = h.get("kind:" + c[0].split()[1], 0) + 1
+            # most callbacks owed to a single loop iteration (depth reached around the 32-request cap)
+            best = cur = 0
+            for l in iv:
+                if l.startswith("cb "): cur += 1
+                elif l.startswith("ran "): best = max(best, cur); cur = 0
+            if best >= 33:
+                h["run:>=33 write callbacks in one iteration"] = h.get("run:>=33 write callbacks in one iteration", 0) + 1
     return ok
 
 
